@@ -6,6 +6,7 @@ import (
 	"regexp"
 	"runtime/debug"
 	"sort"
+	"strconv"
 	"strings"
 
 	"github.com/yuin/goldmark"
@@ -164,6 +165,10 @@ func (c Cfg) Extenders() []goldmark.Extender {
 			case "footnote-opt", "table-opt", "linkify-opt", "typographer-opt":
 				out = append(out, OptionBearing(m))
 			default:
+				if strings.HasPrefix(m, "typo.") {
+					out = append(out, TypographerVariant(m))
+					break
+				}
 				out = append(out, Cfg{Ext: m}.Extenders()...)
 			}
 		}
@@ -240,6 +245,53 @@ func OptionBearing(name string) goldmark.Extender {
 		}))
 	}
 	panic("unknown option-bearing extension " + name)
+}
+
+// TypographerVariant builds the Typographer with one substitution (or all of them) replaced: "typo.<n>.<kind>" with n the
+// number of the punctuation (1 = LeftSingleQuote … 10 = Apostrophe) or "all", and kind one of nil (the documented way to
+// switch a substitution off), empty (a non-nil empty value) and str (a custom character reference).
+func TypographerVariant(name string) goldmark.Extender {
+	f := strings.Split(name, ".")
+	if len(f) != 3 {
+		panic("bad typographer variant " + name)
+	}
+	m := map[extension.TypographicPunctuation][]byte{}
+	set := func(k int) {
+		switch f[2] {
+		case "nil":
+			m[extension.TypographicPunctuation(k)] = nil
+		case "empty":
+			m[extension.TypographicPunctuation(k)] = []byte{}
+		case "str":
+			m[extension.TypographicPunctuation(k)] = []byte(fmt.Sprintf("&#%d;", 9000+k))
+		default:
+			panic("bad typographer variant " + name)
+		}
+	}
+	if f[1] == "all" {
+		for k := 1; k <= 10; k++ {
+			set(k)
+		}
+	} else {
+		k, err := strconv.Atoi(f[1])
+		if err != nil || k < 1 || k > 10 {
+			panic("bad typographer variant " + name)
+		}
+		set(k)
+	}
+	return extension.NewTypographer(extension.WithTypographicSubstitutions(m))
+}
+
+// TypographerVariants lists every variant name.
+func TypographerVariants() []string {
+	var out []string
+	for _, kind := range []string{"nil", "empty", "str"} {
+		out = append(out, "typo.all."+kind)
+		for k := 1; k <= 10; k++ {
+			out = append(out, fmt.Sprintf("typo.%d.%s", k, kind))
+		}
+	}
+	return out
 }
 
 // CustomExtenders builds every extension through its option-bearing constructor with every extension option set to a
